@@ -188,7 +188,7 @@ impl HubC {
     /// `unsubscribe(id)` run as two tasks of the same current-thread runtime (publish spawned first):
     /// wherever the implementation yields inside `publish`, the unsubscribe runs to completion, and
     /// whatever the publish then still enqueues for `id` was enqueued after unsubscribe returned.
-    fn do_pub(&mut self, topic: &str, n: u64, race: Option<String>, mon: &mut Mon) -> String {
+    fn do_pub(&mut self, topic: &str, n: u64, race: Option<String>, burn: Option<usize>, mon: &mut Mon) -> String {
         // What the property obliges this publish to do, from the monitor's own records:
         let mut must_prune: Vec<String> = Vec::new();
         let mut any_live_target = false;
@@ -223,8 +223,24 @@ impl HubC {
                 let occ = |tx: &Option<mpsc::Sender<String>>| tx.as_ref().map(|t| t.max_capacity() - t.capacity());
                 let (hub_a, hub_b) = (self.hub.clone(), self.hub.clone());
                 let (topic_a, id_b, vtx_b) = (topic.to_string(), id.clone(), victim_tx.clone());
+                // forced yield: every acquisition of the hub mutex costs the task one unit of tokio's
+                // cooperative budget (128 per poll), so a publisher task that has already made `burn`
+                // acquisitions in this poll is made to yield at its (129 - burn)-th next one - sweeping
+                // `burn` puts the task switch at each await point of the real `publish` in turn, and the
+                // unsubscribe task runs to completion exactly there. Only for a victim whose receiver is
+                // gone (then every interleaving ends in the same hub and channel state).
+                let victim_closed = self.subs.get(id).is_some_and(|rec| self.conns[rec.conn].rx.is_none()) || !self.subs.contains_key(id);
+                let burn_n = if victim_closed { burn.unwrap_or(0) } else { 0 };
+                if burn.is_some() {
+                    mon.count(if burn_n > 0 { "racepub-forced-yield" } else { "racepub-forced-yield-skipped" });
+                }
                 let (r, _) = self.bounded(async move {
-                    let a = tokio::spawn(async move { hub_a.publish(&topic_a, json!(n)).await });
+                    let a = tokio::spawn(async move {
+                        for _ in 0..burn_n {
+                            let _ = hub_a.len().await;
+                        }
+                        hub_a.publish(&topic_a, json!(n)).await
+                    });
                     let b = tokio::spawn(async move {
                         let removed = hub_b.unsubscribe(&id_b).await;
                         // queue length of the victim's channel at the moment unsubscribe returned
@@ -262,7 +278,11 @@ impl HubC {
                             }
                         }
                         must_prune.retain(|x| x != id);
-                        race_out = format!(" removed={}", show_bool(removed));
+                        if burn.is_some() {
+                            mon.count(if removed { "forced-yield-unsubscribe-first" } else { "forced-yield-prune-first" });
+                        } else {
+                            race_out = format!(" removed={}", show_bool(removed));
+                        }
                         (true, 1)
                     }
                     _ => (false, 1),
@@ -353,6 +373,64 @@ impl Component for HubC {
             ops.push("recv 1".into());
             ops.push("recv 1".into());
             ops.push(format!("pub {topic} 3"));
+            ops.push("recv 1".into());
+            ops.push("len".into());
+            return ops;
+        }
+        // Forced task switch at each await point of the real `publish` in turn (budget sweep 120..=131, plus the
+        // second-poll values 248..=257): a closed subscriber's own unsubscribe (its connection's teardown) runs
+        // between the fan-out and the prune, before the first lock, or after the call; afterwards the hub
+        // must still serve the other subscriber and prune it once it closes.
+        if idx % 20 == 7 {
+            let topic = Self::gen_topic(rng);
+            let burn = if rng.chance(3, 4) { 120 + (idx / 20) % 12 } else { 248 + (idx / 20) % 10 };
+            ops.push(format!("conn {}", rng.range(1, 4)));
+            ops.push(format!("conn {}", rng.range(2, 6)));
+            let mut ids = 0u64;
+            let extra_dead = rng.below(3);
+            let victim_first = rng.chance(1, 2);
+            let mut victim = 0;
+            let mut other = 0;
+            for slot in 0..2 {
+                if (slot == 0) == victim_first {
+                    victim = ids;
+                    ops.push(format!("sub 0 {topic}"));
+                    ids += 1;
+                    for _ in 0..extra_dead {
+                        ops.push(format!("sub 0 {}", Self::gen_topic(rng)));
+                        ids += 1;
+                    }
+                } else {
+                    other = ids;
+                    ops.push(format!("sub 1 {topic}"));
+                    ids += 1;
+                }
+            }
+            if rng.chance(1, 3) {
+                ops.push(format!("pub {topic} 1"));
+                ops.push("recv 1".into());
+            }
+            ops.push("close 0".into());
+            ops.push(format!("racepub {topic} 2 {victim} {burn}"));
+            ops.push("len".into());
+            ops.push("recv 1".into());
+            ops.push(format!("pub {topic} 3"));
+            ops.push("recv 1".into());
+            match rng.below(3) {
+                0 => ops.push("close 1".into()),
+                1 => {
+                    ops.push(format!("unsub {other}"));
+                    ops.push("conn 2".into());
+                    ops.push(format!("sub 2 {topic}"));
+                    ops.push(format!("pub {topic} 4"));
+                    ops.push("recv 2".into());
+                    ops.push("close 2".into());
+                }
+                _ => {}
+            }
+            ops.push(format!("pub {topic} 5"));
+            ops.push("len".into());
+            ops.push(format!("pub {topic} 6"));
             ops.push("recv 1".into());
             ops.push("len".into());
             return ops;
@@ -574,14 +652,21 @@ impl Component for HubC {
                 if !valid_topic(topic) {
                     return "bad-op".into();
                 }
-                self.do_pub(topic, n, None, mon)
+                self.do_pub(topic, n, None, None, mon)
             }
             ["racepub", topic, n, k] => {
                 let (Ok(n), Ok(k)) = (n.parse::<u64>(), k.parse::<u64>()) else { return "bad-op".into() };
                 if !valid_topic(topic) {
                     return "bad-op".into();
                 }
-                self.do_pub(topic, n, Some(format!("sub-{k}")), mon)
+                self.do_pub(topic, n, Some(format!("sub-{k}")), None, mon)
+            }
+            ["racepub", topic, n, k, burn] => {
+                let (Ok(n), Ok(k), Ok(burn)) = (n.parse::<u64>(), k.parse::<u64>(), burn.parse::<usize>()) else { return "bad-op".into() };
+                if !valid_topic(topic) || burn > 1000 {
+                    return "bad-op".into();
+                }
+                self.do_pub(topic, n, Some(format!("sub-{k}")), Some(burn), mon)
             }
             ["subn", c, topic, count] => {
                 let (Ok(c), Ok(count)) = (c.parse::<usize>(), count.parse::<usize>()) else { return "bad-op".into() };
